@@ -40,6 +40,12 @@ class DiskAddFile:
     def probes(self, cell):
         for L in (0, 1, 2289, 2294, 2304, 4598, 5000, 7000):
             yield {"L": L}
+        # allocations that run far along the DEFAULT fill order (it names granules 40..43 twice): an empty disk and a large file,
+        # and 14 granules in use followed by a 9-granule file
+        for L in (23 * 2304 - 20, 28 * 2304 - 20, 65535 - 10):
+            yield {"L": L, "pre": 1}
+        for L in (9 * 2304 - 20, 13 * 2304 - 20):
+            yield {"L": L, "pre": 2}
 
     def run(self, env, cell):
         if env.mode == "native":
@@ -56,7 +62,17 @@ class DiskAddFile:
         data = [(5 * i + 1) % 253 for i in range(L)]
         # a consistent, partly used image: one earlier file on scattered granules
         old = ("OLD", "BIN", 2, 0, 0x2000, 0x2002, [9] * 5000)
-        before = db.build([old], order=[32, 0, 67] + [g for g in range(68) if g not in (32, 0, 67)])
+        pre = env.holes.get("pre", 0)
+        if pre == 0:
+            before = db.build([old], order=[32, 0, 67] + [g for g in range(68) if g not in (32, 0, 67)])
+        else:
+            # the tool's own default order (read from the real module), duplicates removed: where the next allocation starts
+            dflt = []
+            for g in F.get(F.cls(DSK, "DiskConstants"), "GRANULE_FILL_ORDER"):
+                if g not in dflt:
+                    dflt.append(g)
+            old = ("OLD", "BIN", 2, 0, 0x2000, 0x2002, [9] * (100 if pre == 1 else 14 * 2304 - 20))
+            before = db.build([old], order=dflt)
         d = F.new(DSK, "DiskFile", buffer=list(before))
         buf = F.get(d, "buffer")
         f = F.coco_file("NEWFILE", ftype, dtype, 0x1234, 0x5678, list(data), extension="BIN")
@@ -184,6 +200,8 @@ class DiskAddFile:
             ch = args["allocated_granules"]
             dat = args["file_data"]
             GA, P = st["GA"], st["P"]
+            if not isinstance(ch, ArrList) or GA is None:
+                raise sym.Undecided("add_file: the granule list handed to write_to_granules is not the one built by the allocation loop under contract")
             kk = ch.length()
             env.ensure(KEY + "write_to_granules::pre@call:enough-granules", need <= kk, ("C08",))
             env.ensure(KEY + "write_to_granules::pre@call:data-is-file-data", And(dat.length() == L, True), ("C08",))
@@ -206,6 +224,8 @@ class DiskAddFile:
             ch = args["allocated_granules"]
             s_ = args["last_granule_sectors_used"]
             GA, P = st["GA"], st["P"]
+            if not isinstance(ch, ArrList) or GA is None:
+                raise sym.Undecided("add_file: the granule list handed to write_to_fat is not the one built by the allocation loop under contract")
             kk = ch.length()
             env.ensure(KEY + "write_to_fat::pre@call:non-empty", kk >= 1, ("C08",))
             prove_forall(env, p, KEY + "write_to_fat::pre@call:chain-distinct-in-range",
